@@ -189,6 +189,9 @@ impl AllocationQueue {
 
     pub fn resume(&mut self) {
         self.state = AllocationQueueState::Active;
+        // Forget the failures recorded so far. Otherwise a queue that was paused because of too
+        // many failures would be paused again by the very next scheduling tick.
+        self.rate_limiter.on_queue_resumed();
     }
 
     pub fn manager(&self) -> &ManagerType {
@@ -499,6 +502,12 @@ impl RateLimiter {
     pub fn on_allocation_fail(&mut self) {
         self.allocation_fails += 1;
         self.increase_delay();
+    }
+
+    /// The queue was resumed, start counting failures from scratch.
+    pub fn on_queue_resumed(&mut self) {
+        self.submission_fails = 0;
+        self.allocation_fails = 0;
     }
 
     /// Submission will be attempted, reset the limiter timer.
